@@ -164,6 +164,292 @@ def rule_true_implies_eq(ctx):
     return obs
 
 
+# --------------------------------------------------------------- C14, converse direction: false only if absent
+
+def _sc(t):
+    while isinstance(t, tuple) and t and t[0] == 'cast':
+        t = t[2]
+    return t
+
+
+def _exp(t):
+    """exponent term -> (symbolic part or None, integer offset)"""
+    t = _sc(t)
+    if t[0] == 'lit' and isinstance(t[1], int):
+        return (None, t[1])
+    if t[0] == 'op' and len(t) == 4 and t[1] in ('+', '-'):
+        a, b = _sc(t[2]), _sc(t[3])
+        if b[0] == 'lit' and isinstance(b[1], int):
+            S, c = _exp(a)
+            return (S, c + (b[1] if t[1] == '+' else -b[1]))
+        if a[0] == 'lit' and isinstance(a[1], int) and t[1] == '+':
+            S, c = _exp(b)
+            return (S, c + a[1])
+    return (t, 0)
+
+
+def _pow2(t):
+    """value term -> (S, c, b) meaning 2^(S+c) + b, or None.  sdsl::bits::lo_set[k] is 2^k - 1 (sdsl.hpp: "a 64-bit word
+    with the i least significant bits set")."""
+    t = _sc(t)
+    if t[0] == 'index' and _sc(t[1])[0] == 'static' and _sc(t[1])[1].endswith('::lo_set'):
+        S, c = _exp(t[2])
+        return (S, c, -1)
+    if t[0] == 'op' and len(t) == 4 and t[1] == '<<' and _sc(t[2]) in (('lit', 1),):
+        S, c = _exp(t[3])
+        return (S, c, 0)
+    if t[0] == 'op' and len(t) == 4 and t[1] in ('+', '-') and _sc(t[3])[0] == 'lit' and isinstance(_sc(t[3])[1], int):
+        p = _pow2(t[2])
+        if p:
+            return (p[0], p[1], p[2] + (_sc(t[3])[1] if t[1] == '+' else -_sc(t[3])[1]))
+    return None
+
+
+def _bit_width_of(t):
+    """x if t is the bit width of x: the BIT_WIDTH macro `x == 0 ? 0 : 64 - __builtin_clzll(x)` or std::bit_width(x)"""
+    t = _sc(t)
+    if t[0] == 'cond' and len(t) == 4:
+        c, a, b = _sc(t[1]), _sc(t[2]), _sc(t[3])
+        if c[0] == 'op' and c[1] == '==' and _sc(c[3]) == ('lit', 0) and a == ('lit', 0) and b[0] == 'op' and b[1] == '-' and _sc(b[2]) == ('lit', 64):
+            k = _sc(b[3])
+            if k[0] == 'call' and k[1] in ('__builtin_clzll', '__builtin_clzl') and len(k[2]) == 1 and _sc(k[2][0]) == _sc(c[2]):
+                return _sc(c[2])
+    if t[0] == 'call' and t[1] in ('std::bit_width', 'std::__bit_width') and len(t[2]) == 1:
+        return _sc(t[2][0])
+    return None
+
+
+_FLIP = {'<': '>', '>': '<', '<=': '>=', '>=': '<='}
+
+
+def _coord_pred(t):
+    """atom over one coordinate x -> ('ge'|'lt', (S, c, b)): the atom is true iff x >= / x < 2^(S+c) + b; or None"""
+    t = _sc(t)
+    if t[0] == 'un' and t[1] == '!':
+        p = _coord_pred(t[2])
+        return ({'ge': 'lt', 'lt': 'ge'}[p[0]], p[1]) if p else None
+    if not (t[0] == 'op' and len(t) == 4 and t[1] in ('<', '>', '<=', '>=')):
+        return None
+    l, r, o = _sc(t[2]), _sc(t[3]), t[1]
+    if r[0] == 'param' or _bit_width_of(r) is not None:
+        l, r, o = r, l, _FLIP[o]
+    w = _bit_width_of(l)
+    if w is not None and w[0] == 'param':
+        S, c = _exp(r)
+        # bit_width(x) >= E  <=>  x >= 2^(E-1);   bit_width(x) > E  <=>  x >= 2^E   (E >= 1)
+        return {'>=': ('ge', (S, c - 1, 0)), '>': ('ge', (S, c, 0)), '<': ('lt', (S, c - 1, 0)), '<=': ('lt', (S, c, 0))}[o]
+    if l[0] == 'param':
+        v = _pow2(r)
+        if v:
+            S, c, b = v
+            return {'>=': ('ge', (S, c, b)), '>': ('ge', (S, c, b + 1)), '<': ('lt', (S, c, b)), '<=': ('lt', (S, c, b + 1))}[o]
+    return None
+
+
+def _term_formula(t):
+    t = _sc(t)
+    if t[0] == 'op' and len(t) == 4 and t[1] in ('&&', '||'):
+        return (t[1], _term_formula(t[2]), _term_formula(t[3]))
+    if t[0] == 'un' and t[1] == '!':
+        return ('!', _term_formula(t[2]))
+    return ('atom', t)
+
+
+def _point_pred_of_formula(form, nparams):
+    """('rej'|'acc', T): true iff SOME coordinate >= T / EVERY coordinate < T, every coordinate being tested"""
+    neg = False
+    while form[0] == '!':
+        neg = not neg
+        form = form[1]
+
+    def flat(f, op):
+        if f[0] == op:
+            return flat(f[1], op) + flat(f[2], op)
+        return [f]
+    for op, kind, want in (('||', 'rej', 'ge'), ('&&', 'acc', 'lt')):
+        parts = flat(form, op)
+        if len(parts) > 1 or nparams == 1:
+            ps = []
+            for x in parts:
+                n2 = False
+                while x[0] == '!':
+                    n2 = not n2
+                    x = x[1]
+                if x[0] != 'atom':
+                    ps = None
+                    break
+                p_ = _coord_pred(x[1])
+                if p_ and n2:
+                    p_ = ({'ge': 'lt', 'lt': 'ge'}[p_[0]], p_[1])
+                ps.append(p_)
+            if ps and None not in ps and all(q[0] == want for q in ps) and len({q[1] for q in ps}) == 1 and len(ps) == nparams:
+                k = kind
+                if neg:
+                    k = 'acc' if k == 'rej' else 'rej'
+                return (k, ps[0][1])
+    return None
+
+
+def _lambda_of(u, encl, nparams=None):
+    c = [g for g in u.functions.values() if g.tname == encl.tname + '::(lambda)::operator()' and g.qname.startswith(encl.qname)]
+    return c[0] if len(c) == 1 else None
+
+
+def _point_pred(u, fn, t, par, depth=0):
+    """predicate over the query point `par` -> ('rej'|'acc', T) or None; follows one-return helper functions and
+    std::apply over a fold lambda"""
+    t = _sc(t)
+    if depth > 4:
+        return None
+    if t[0] == 'un' and t[1] == '!':
+        p = _point_pred(u, fn, t[2], par, depth + 1)
+        return ('acc' if p[0] == 'rej' else 'rej', p[1]) if p else None
+    if t[0] == 'call' and t[1] == 'std::apply' and len(t[2]) == 2 and t[2][0][0] == 'lambda' and _sc(t[2][1]) == par:
+        lam = _lambda_of(u, fn)
+        if lam is None:
+            return None
+        rets = lam.returns()
+        if len(rets) != 1:
+            return None
+        return _point_pred_of_formula(_term_formula(lam.term(lam.n(rets[0])['ch'][0], inline=True)), len(lam.params))
+    if t[0] == 'call' and t[1].startswith('pgm::') and len(t[2]) == 1 and _sc(t[2][0]) == par:
+        cs = [g for g in u.fns(t[1]) if g.qname.startswith(fn.qname.rsplit('::', 1)[0] + '::')] or u.fns(t[1])
+        if not cs:
+            return None
+        g = cs[0]
+        rets = g.returns()
+        if len(rets) != 1 or len(g.params) != 1:
+            return None
+        return _point_pred(u, g, g.term(g.n(rets[0])['ch'][0], inline=True), ('param', g.params[0]['name']), depth + 1)
+    return None
+
+
+def _ctor_threshold(u, f):
+    """T such that every stored coordinate is < T: the constructor's rejection predicate (its inner lambda's `if`)"""
+    rec = f.qname.rsplit('::', 1)[0]
+    for lam in u.functions.values():
+        if lam.tname == MD + '::MultidimensionalPGMIndex::(lambda)::operator()::(lambda)::operator()' and lam.qname.startswith(rec + '::'):
+            g = graph(lam)
+            for b in g.reach:
+                c = g.cond(b)
+                if c and g.blocks[b].get('term_c') == 'IfStmt':
+                    p = _point_pred_of_formula(_term_formula(lam.term(c, inline=True)), len(lam.params))
+                    if p and p[0] == 'rej':
+                        return p[1]
+    return None
+
+
+def _thr_ge(a, b):
+    """2^(S+c1)+b1 >= 2^(S+c2)+b2 ?  True / False / None (unknown)"""
+    if a[0] != b[0]:
+        return None
+    if a[1] == b[1]:
+        return a[2] >= b[2]
+    if abs(a[2]) <= 1 and abs(b[2]) <= 1:
+        # exponents differ by at least one: the powers differ by at least 2^(S+c) >= 2 for any exponent >= 1
+        return a[1] > b[1]
+    return None
+
+
+def _fmt_thr(T):
+    S, c, b = T
+    e = (fmt_term(S) if S is not None else '') + (f"{c:+d}" if c or S is None else '')
+    return f"2^({e})" + (f"{b:+d}" if b else '')
+
+
+def rule_false_implies_absent(ctx):
+    """contains() yields false only where the path implies that p is not stored: the lower-bound position is end(), the
+    element there differs from p, or p fails a coordinate-width predicate that the constructor enforces on every stored
+    point (rejecting threshold not below the constructor's)."""
+    obs = []
+    for f in ctx.need(MD + '::contains'):
+        u = f.unit
+        g = graph(f)
+        par = ('param', f.params[0]['name'])
+        enc = ('call', MD + '::encode', (par,), None)
+        Tc = _ctor_threshold(u, f)
+        notes = []
+
+        def absent_when(a):
+            """truth value of atom `a` (node id) that implies `p is not stored`, or None if the atom says nothing known"""
+            t = _sc(f.term(a, inline=True))
+            if t[0] == 'op' and len(t) == 4 and t[1] in ('==', '!='):
+                for x, y in ((_sc(t[2]), _sc(t[3])), (_sc(t[3]), _sc(t[2]))):
+                    if y[0] == 'call' and y[1].endswith('::end') and not y[2]:
+                        k = kinds.kind_of_term(x)
+                        if k and k[0] == 'FIRST_GE' and k[1] == enc:
+                            return t[1] == '=='
+                    cand = None
+                    if x[0] == 'call' and x[1].endswith('::Decode') and len(x[2]) == 1 and _sc(x[2][0])[0] == 'deref' and y == par:
+                        cand = _sc(x[2][0])[1]
+                    elif x[0] == 'deref' and y == enc:
+                        cand = x[1]
+                    if cand is not None:
+                        k = kinds.kind_of_term(cand)
+                        if k and k[0] == 'FIRST_GE' and k[1] == enc:
+                            return t[1] == '!='
+                return None
+            pp = _point_pred(u, f, t, par)
+            if pp is not None:
+                if Tc is None:
+                    notes.append('the constructor\'s coordinate check was not recognised')
+                    return None
+                ge = _thr_ge(pp[1], Tc)
+                if ge is None:
+                    notes.append(f"threshold {_fmt_thr(pp[1])} is not comparable with the constructor's {_fmt_thr(Tc)}")
+                    return None
+                if not ge:
+                    notes.append(f"`{fmt_term(f.term(a, inline=False))[:60]}` rejects coordinates >= {_fmt_thr(pp[1])}, but the constructor stores "
+                                 f"coordinates up to {_fmt_thr(Tc)} - 1")
+                    return 'never'
+                return pp[0] == 'rej'
+            return None
+
+        for r in f.returns():
+            e = f.n(r)['ch'][0] if f.n(r)['ch'] else 0
+            if not e:
+                continue
+            form = _bool_formula(f, e)
+            if form[0] == 'const' and form[1] is True:
+                continue
+            # the path condition: conjunction of the `if` conditions the return is control dependent on
+            pc = []
+            pos = f.block_of(r)
+            for (b, lab) in g.transitive_control_deps(pos[0]) if pos else []:
+                c = g.cond(b)
+                if c and g.blocks[b].get('term_c') == 'IfStmt':
+                    cf = _bool_formula(f, c)
+                    pc.append(cf if lab is True else ('!', cf))
+            # the result is false on this path iff PC && !E
+            whole = ('!', form)
+            for x in pc:
+                whole = ('&&', x, whole)
+            ats = sorted(_atoms(whole))
+            aw = {a: absent_when(a) for a in ats}
+            unknown = [a for a in ats if aw[a] is None]
+            bad = None
+            for vals in itertools.product([False, True], repeat=len(ats)):
+                env = dict(zip(ats, vals))
+                if not _eval(whole, env):
+                    continue
+                if any(aw[a] is not None and aw[a] != 'never' and env[a] == aw[a] for a in ats):
+                    continue
+                bad = env
+                break
+            found = fmt_term(f.term(e, inline=False))[:80]
+            if pc:
+                found += ' under ' + ' && '.join(('' if x[0] != '!' else '!') + '(' + fmt_term(f.term((x[1] if x[0] == '!' else x)[1], inline=False))[:50] + ')' if (x[1] if x[0] == '!' else x)[0] == 'atom' else '(...)' for x in pc)
+            req = 'contains() yields false only where the lower-bound position is end(), its element differs from p, or p fails a width test no stored point can fail'
+            if bad is None:
+                obs.append(Ob('FALSE-IMPLIES-ABSENT', f, r, req, f"`{found}`: every way of being false implies absence", OK, arm='ret'))
+            else:
+                culprit = [a for a in ats if aw[a] in (None, 'never') and a in bad]
+                why = '; '.join(dict.fromkeys(notes)) or ('depends on `' + '`, `'.join(fmt_term(f.term(a, inline=False))[:50] for a in culprit[:2]) + '`')
+                st = VIOLATED if (not unknown or any(aw[a] == 'never' for a in ats)) else UNDECIDED
+                obs.append(Ob('FALSE-IMPLIES-ABSENT', f, r, req, f"`{found}` can be false for a stored point: {why}", st, arm='ret'))
+    return obs
+
+
 def rule_contains_kind(ctx):
     """the position compared in contains() is FIRST_GE(encode(p)) inside the range pgm.search(encode(p)) returned"""
     obs = []
@@ -333,4 +619,4 @@ def rules_c13(ctx):
 
 
 def rules_c14(ctx):
-    return rule_true_implies_eq(ctx) + rule_contains_kind(ctx) + rule_end_guard(ctx, [MD + '::contains'])
+    return rule_true_implies_eq(ctx) + rule_false_implies_absent(ctx) + rule_contains_kind(ctx) + rule_end_guard(ctx, [MD + '::contains'])
